@@ -449,8 +449,38 @@ def with_forks(rng, hists, p=0.5):
 # ---------------------------------------------------------------------------
 # C08 templates: shrink/grow grids
 
+def within_unit_triples(ver):
+    """(L0, L1, L2): write L0, cut to L1, grow to L2, where the cut and the growth stay inside the same
+    number of (mini) sectors - no sector is released or added, so only an explicit scrub zeroes the gap -
+    and the variants that cross exactly one unit boundary."""
+    slen = 512 if ver == 3 else 4096
+    out = []
+    classes = [(64, k) for k in (1, 2, 5, 63)] + [(slen, k) for k in ((9, 10, 13) if ver == 3 else (2, 3))]
+    for u, k in classes:
+        lo = (k - 1) * u
+        for L0 in (k * u, k * u - 1, k * u - u // 3):
+            for L1 in (lo + 1, lo + u // 2, L0 - 1, lo):
+                for L2 in (L0, k * u, L1 + 1, k * u + 1):
+                    if 0 < L1 < L0 and L1 < L2 and (u == 64 or L1 >= 4096) and (u != 64 or L2 < 4096):
+                        out.append((L0, L1, L2))
+    return sorted(set(out))
+
+
 def c08_templates(tier):
     out = []
+    for ver in (3, 4):
+        # T4: cut and growth inside the same final (mini) sector
+        tr = within_unit_triples(ver)
+        for j, (L0, L1, L2) in enumerate(tr):
+            if tier == "quick" and j % 2:
+                continue
+            f = Fill()
+            ops = [{"op": "create_stream", "p": sp(["a"])},
+                   {"op": "write", "p": sp(["a"]), "off": 0, "runs": [[f.next(), L0 // 2], [f.next(), L0 - L0 // 2]]},
+                   {"op": "set_len", "p": sp(["a"]), "n": L1},
+                   {"op": "set_len", "p": sp(["a"]), "n": L2, "heavy": True},
+                   {"op": "read", "p": sp(["a"])}]
+            out.append({"id": f"T4_v{ver}_{L0}_{L1}_{L2}", "ver": ver, "heavy": "marked", "ops": ops})
     for ver in (3, 4):
         slen = 512 if ver == 3 else 4096
         L = sorted(set([0, 1, 63, 64, 65, 4095, 4096, 4097, slen - 1, slen, slen + 1, 2 * slen + 1]))
